@@ -509,11 +509,12 @@ func (t *timeTicker) Stop() {
 }
 
 func (t *timeTicker) Next(now time.Time) time.Time {
-	next := now.Add(t.every)
 	if t.align {
-		next = next.Round(t.every)
+		// Same rule as Start: an aligned ticker ticks on the multiples of every,
+		// so the next tick is the first multiple after now.
+		return now.Truncate(t.every).Add(t.every)
 	}
-	return next
+	return now.Add(t.every)
 }
 
 type cronTicker struct {
